@@ -135,6 +135,9 @@ def fixed_point_bounded_instance():
         if inp['seed'] % 3 == 0 and model != 'cbmm':
             # "any class sizes >= D + 2": clearly unbalanced classes (concentrations of a blurred start then differ per class)
             sizes = sizes * np.array([1, 4, 15, 2])[rng.permutation(4)[:K]]
+        if inp['seed'] % 7 == 3 and model in ('gmm', 'vmfmm', 'cwmm', 'cacgmm'):
+            # the smallest admissible class (D + 2 members) next to classes of hundreds
+            sizes = np.array([D + 2] + [int(rng.randint(150, 400)) for _ in range(K - 1)])[rng.permutation(K)]
         lab = np.concatenate([np.full(s, k) for k, s in enumerate(sizes)])
         N = len(lab)
         cplx = model not in ('gmm', 'vmfmm')
@@ -169,6 +172,8 @@ def fixed_point_bounded_instance():
         blur = rng.uniform(0.0, 0.45)
         if sizes.max() > 3 * sizes.min():
             blur = rng.uniform(0.0, UNBALANCED_BLUR)
+        if inp['seed'] % 7 == 3 and model in ('vmfmm', 'cwmm', 'cacgmm'):
+            blur = rng.uniform(0.2, 0.32)             # (the smallest class next to hundreds, from a clearly blurred start)
         if model == 'gmm':
             # full covariances fitted from a blurred start mix the between-class spread into every class; on the unchanged tree
             # a heavily blurred start then converges to another local optimum at a rate of about 2e-3 -- the family keeps the
